@@ -55,7 +55,30 @@ DESIGN_MC = {
     "C01": [("Schemes.tla", "Schemes.cfg", "Schemes: fold/split, stereo, fixed, LPC lemmas; complete block-size / sample-rate / UTF-8 code spaces")],
     "C03": [("EncoderSeq.tla", "EncoderSeq.cfg", "EncoderSeq: InfoTruth over every length 0..10, fault and bad-block scenario (BS=3)")],
     "C04": [("EncoderSeq.tla", "EncoderSeq.cfg", "EncoderSeq: InfoBounds over every length 0..10 (BS=3, MinBS=2)")],
+    "C09": [("EncoderChoice.tla", "EncoderChoice.cfg", "EncoderChoice: the subframe / stereo decision rules never exceed verbatim / independent, pick a minimum, are monotone in the switches (all sizes 0..6)")],
 }
+
+
+def choice_conformance(tier, seed, res):
+    """How the encoder decides (EncoderChoice.tla) against encode_fixed_size_frame under all 8 subsets of the
+    switches of a decision.  Not a listed property: mismatches are MODEL-DIVERGENCE lines, exit code unaffected."""
+    out = os.path.join(vlib.WORK, f"choice-{tier}")
+    summ = vlib.run_fv(["choice", "--tier", tier, "--seed", seed, "--out", out, "--shards", 4])
+    verdicts, states, trans, _ = vlib.run_trace_shards("TraceChoice.tla", "TraceChoice.cfg", summ["files"], tagp="choice")
+    div = 0
+    for cid, (v, msgs) in sorted(verdicts.items()):
+        if v != "pass":
+            div += 1
+            if div <= 5:
+                print(f"MODEL-DIVERGENCE property=C09 decision-rule case={cid} {' '.join(msgs)[:300]}")
+    for e in summ["errors"][:5]:
+        print(f"MODEL-DIVERGENCE property=C09 decision-rule case={e['id']} encode failed: {e['what'][:200]}")
+    res.coverage["decision_rule_conformance"] = dict(
+        blocks=summ["cases"], stereo=summ["stereo"], subframe=summ["sub"], runs=8 * summ["cases"], distinct_outcome_patterns=summ["classes"],
+        accepted_by_TraceChoice=len(verdicts) - div, diverged=div, encode_errors=len(summ["errors"]),
+        note="conformance of the decision rules, not a listed property; never a VIOLATION")
+    res.coverage["states"] += states
+    res.coverage["transitions"] += trans
 
 
 def check_stream(prop, tier, seed, only=None, outdir=None, props=None, accept=None):
@@ -112,6 +135,8 @@ def check_stream(prop, tier, seed, only=None, outdir=None, props=None, accept=No
         subframe_kinds_and_channel_assignments_seen=summary["kinds"], outcomes=summary["outcomes"],
         samples=summary["samples"],
         checker_cmd="tlc -workers 1 -config TraceStream.cfg TraceStream.tla (one JVM per NDJSON shard, env TRACE)")
+    if prop == "C09" and not only and props is None:
+        choice_conformance(tier, seed, res)
     if prop == "C03":
         # the hash is fed by a separate thread in the multi-thread encoder: controlled schedules in which that
         # thread is starved (the 16-slot process queue fills up, 17..21 blocks), validated against ParEncoder.tla
